@@ -596,6 +596,9 @@ func scenarios(th bool) []scenario {
 	for _, p := range [][]string{{"P", "EX", "EX"}, {"F", "EX"}, {"K", "EX", "B"}, {"EX", "T", "EX"}} {
 		scs = append(scs, scenario{Scripts: p, Bound: 0, OneAtATime: true}, scenario{Scripts: p, Bound: 0, OneAtATime: true, Keep: true})
 	}
+	// names that differ only in what a normalisation might fold together
+	// (blank / underscore / hyphen, letter case, a trailing dot)
+	scs = append(scs, scenario{Scripts: []string{"P", "E", "F"}, Bound: 1, Bases: []string{"a b", "a_b", "a-b"}}, scenario{Scripts: []string{"P", "E", "F", "P"}, Bound: 0, Bases: []string{"ab", "AB", "ab.", "Ab"}})
 	// a file name so long that "script-<name>" is no legal directory name any more:
 	// that script cannot be set up, and everything must still be cleaned away
 	long := strings.Repeat("n", 250)
